@@ -59,6 +59,10 @@ if os.environ.get("VERIF_NO_VSYNC") != "1":
                     # (3) every visit of a stage by a scheduling loop is a (normally inactive) yield point
                     new = re.sub(r"(for _, (\w+) := range verifNodes\(\w+\.Nodes\(\)\) \{\n)", r'\1verifYield("sched-visit", \2)\n', new)
                 uses_vsync = False
+                # (8) pkg/runner: Finish takes the contexts down in sync.Map order -> a seeded order
+                if dp.endswith("pkg/runner") and re.search(r"\b(\w+\.cleanupList)\.Range\(", new):
+                    new = re.sub(r"\b(\w+\.cleanupList)\.Range\(", r"vsync.RangeSorted(&\1, ", new)
+                    uses_vsync = True
                 # (5) cmd/taskctl's cancel listeners (`<-cancel` then Cancel): which of them acts first, and
                 # when, relative to the run they cancel, becomes a decision of the simulator
                 if top == "cmd" and re.search(r"^\t+<-cancel$", new, re.M):
